@@ -285,6 +285,75 @@ def run(ctx):
                                           "input": inp, "model": [list(x) for x in expect], "code": [list(x) for x in got]})
         for b in H.check_rotation_sequence(calls, em, vqs, tol0):
             res.failures.append({"what": "sequence of rotation calls: " + b, "kf": None, "input": inp})
+    # ---- process-wide configuration: a compact pass of the builder-path stream, of the call-sequence stream and of
+    # set_qubit_state under EVERY global configuration of the package (settings, simulator variable, log level DEBUG)
+    from harness import codec as CFG
+    cfg_angles = [0.3, 2e-4, 1.0002e-4, math.pi / 4, -1.0, 129 * math.pi / 256, 5.0, 0.0, 2 * math.pi + 0.01] + \
+        [H.random_angle(rng) for _ in range(25)]
+    cfg_seqs = seqs[:5] + [H.gen_rotation_sequence(rng) for _ in range(25)]
+
+    def under_config(cname):
+        fb2 = H.FastBuilder()
+        for i, a in enumerate(cfg_angles):
+            res.evaluations += 1
+            res.count("config-pass:" + cname.split(".")[-1][:40])
+            axis = H.AXES[i % 3]
+            kind, cmds = fb2.emit(axis, a)
+            inp = {"config": cname, "call": "q.rot_%s(angle=a)" % axis, "angle": a, "angle_hex": _hex(a)}
+            if kind == "raise":
+                res.failures.append({"what": "q.rot_%s(angle=...) raises %s under %s" % (axis, cmds, cname), "kf": None,
+                                     "input": inp})
+                continue
+            rots = [(c[3], c[4]) for c in cmds if c[0] == "rot"]
+            _, spec = H.real_spec(a, tol0)
+            if rots != spec:
+                res.disagreements.append({"stream": "angle.emit under a global configuration", "input": inp,
+                                          "model": [list(p) for p in spec], "code": [list(p) for p in rots]})
+            bad = H.oracle(a, tol0, rots)
+            if bad:
+                res.failures.append({"what": "emitted by the builder under %s: %s" % (cname, bad), "kf": None,
+                                     "input": {**inp, "emitted": [list(p) for p in rots]}})
+        sb2 = H.SeqBuilder()
+        vq2 = [q.qubit_id for q in sb2.qs]
+        for calls in cfg_seqs:
+            res.evaluations += 1
+            kind, em = sb2.run(calls)
+            inp = {"config": cname, "calls": [[c[0], "q%d" % c[1], c[2]] + ([c[3]] if c[0] == "rot" else []) for c in calls]}
+            if kind == "raise":
+                res.failures.append({"what": "a sequence of rotation calls raises %s under %s" % (em, cname), "kf": None,
+                                     "input": inp})
+                continue
+            inp["emitted"] = [list(e) for e in em]
+            for b in H.check_rotation_sequence(calls, em, vq2, tol0):
+                res.failures.append({"what": "sequence of rotation calls under %s: %s" % (cname, b), "kf": None,
+                                     "input": inp})
+        # toolbox.set_qubit_state(q, phi, theta) = rot_Y(theta); rot_Z(phi)
+        from netqasm.sdk.toolbox import state_prep as SP
+        for phi, theta in [(0.3, 1.1), (2.0, 0.7), (rng.uniform(0.1, 6), rng.uniform(0.1, 3))]:
+            res.evaluations += 1
+
+            class _Q:       # the two calls set_qubit_state makes, routed to the sequence builder's qubit 0
+                def rot_Y(self, angle):
+                    self.calls.append(("rot", 0, "Y", {"angle": angle}))
+
+                def rot_Z(self, angle):
+                    self.calls.append(("rot", 0, "Z", {"angle": angle}))
+            qq = _Q()
+            qq.calls = []
+            SP.set_qubit_state(qq, phi=phi, theta=theta)
+            kind, em = sb2.run(qq.calls)
+            inp = {"config": cname, "call": "set_qubit_state(q, phi=%r, theta=%r)" % (phi, theta)}
+            if kind == "raise":
+                res.failures.append({"what": "set_qubit_state raises %s under %s" % (em, cname), "kf": None, "input": inp})
+                continue
+            inp["emitted"] = [list(e) for e in em]
+            if [c[2] for c in qq.calls] != ["Y", "Z"]:
+                res.failures.append({"what": "set_qubit_state does not rotate about Y then Z", "kf": None, "input": inp})
+            for b in H.check_rotation_sequence(qq.calls, em, vq2, tol0):
+                res.failures.append({"what": "set_qubit_state under %s: %s" % (cname, b), "kf": None, "input": inp})
+
+    ran = CFG.under_every_config(under_config)
+    res.count("global-configurations-run", len(ran))
     # ---- aliasing of returned objects: scribble over a returned list, call again, also through the builder
     al = [0.3, 2e-4, math.pi / 4, 1.0, -2.5, 0.0, 100.0] + [H.random_angle(rng) for _ in range(300 if ctx.thorough else 40)]
     for i, a in enumerate(al):
